@@ -230,6 +230,24 @@ func main() {
 					mhp = uint32(r.Intn(int(h)))
 				}
 			}
+			// directed probes at the far end of the window: a validator whose latest block is the OLDEST header the window
+			// still holds (exactly win blocks below the new height) offers a header that claims less than that block's height
+			if h > uint32(win) {
+				for g, lh := range lastGen {
+					if lh == h-uint32(win) && lh > h0 && lh >= 1 {
+						ph := n.Header(bftx.Hdr{H: h, Gen: uint32(g), Mhg: lh - 1, Mhp: mhp, AcH: cur.Cert})
+						pc, perr := n.Contradicting(ph)
+						if perr != nil {
+							fail("IsHeaderContradictingChain: " + perr.Error())
+						}
+						w.Emit(map[string]interface{}{"ev": "Contra", "h": h, "gen": g, "mhg": lh - 1, "mhp": mhp, "res": tj.B(pc)})
+						meta["contra_boundary_probes"]++
+						if pc {
+							meta["contra_true"]++
+						}
+					}
+				}
+			}
 			hd := bftx.Hdr{H: h, Gen: uint32(gen), Mhg: mhg, Mhp: mhp, AcH: cur.Cert}
 			if !rr && r.Intn(6) == 0 && cur.Mhpc > cur.Cert {
 				hd.AcNonEmpty = true
